@@ -47,7 +47,12 @@ def run_one(name, m, tests, tier, only=None):
     try:
         shutil.copytree("/repo", os.path.join(root, "r"), ignore=shutil.ignore_patterns(".git", "__pycache__", ".pytest_cache"))
         r = os.path.join(root, "r")
-        apply(r, m)
+        try:
+            apply(r, m)
+        except RuntimeError as e:
+            res["stale"] = str(e)[:200]
+            res["checks"] = {}
+            return res
         if tests:
             p = subprocess.run(["/venv/bin/python", "-m", "pytest", "-q", "-p", "no:cacheprovider", "-x", "-n", "8"], cwd=r,
                                capture_output=True, text=True, env=dict(os.environ, PYTHONDONTWRITEBYTECODE="1"))
@@ -95,6 +100,9 @@ def main():
                 if not v["ok"]:
                     bad += 1
                     print("   ", v.get("sigs"), v.get("tail", ""))
+        if r.get("stale"):
+            bad += 1
+            flags.append("STALE: " + r["stale"])
         print(f"{n:40s} {r.get('tests', ''):28s} " + " ".join(flags), flush=True)
     print("MISMATCHES:", bad)
     sys.exit(1 if bad else 0)
